@@ -5,6 +5,7 @@ from . import common
 from .c03 import overlap_fact, membership_fact, WRITE_SET, plumbing
 
 EXPLANATION = (
+    "(R11) no function assigns TxInfo.start_epoch after the TxInfo was built. "
     "(R10) the isolation level a session requests reaches TransactionManager::begin_with_isolation, TxInfo::new and the TxInfo field unchanged, the TxInfo is always registered under the allocated id with the manager's clock as start epoch. "
     "Decides structural necessary conditions of SSI validation on the MIR: (R1) read registration reaches the manager "
     "from every session read path; (R2) every SerializationFailure refusal is control-dependent on "
@@ -21,6 +22,7 @@ READ_SET = "cell:TxInfo.read_set"
 def run(ctx):
     P = ctx.program()
     isolation_plumbing(ctx, P, "R10")
+    start_epoch_is_immutable(ctx, P, "R11")
     commit = P.fn("TransactionManager::commit")
     cx = FlowCx(P, commit)
     rec = P.fn("TransactionManager::record_read")
@@ -179,3 +181,34 @@ def isolation_plumbing(ctx, P, rule):
         ctx.ob(rule, "begin_with_isolation#start-epoch-is-clock", any(x.startswith("cell:TransactionManager.current_epoch") for x in etags),
                what="the TxInfo registered at begin does not record the manager's current epoch as the start epoch: overlap tests in commit "
                     "compare against another clock", where=bw.loc(t["line"]))
+
+
+def start_epoch_is_immutable(ctx, P, rule):
+    """Overlap is judged against the epoch at which the transaction took its snapshot. That epoch is fixed when the TxInfo
+    is built; no function may assign TxInfo.start_epoch afterwards (a "late snapshot" that moves it forward at the first
+    write forgets every commit the transaction has already read around, and write skew goes through)."""
+    n = 0
+    bad = []
+    for f in P.fns.values():
+        if "::tests::" in f.id:
+            continue
+        for b in f.blocks:
+            if b["cl"]:
+                continue
+            for pl, rv, ln in b["s"]:
+                if rv[0] == "dead":
+                    continue
+                fl = [p for p in pl[1:] if isinstance(p, str) and p.startswith("f:start_epoch:") and p.endswith("transaction::manager::TxInfo")]
+                if fl or (rv[0] == "ref" and rv[1] == "mut" and any(isinstance(p, str) and p.startswith("f:start_epoch:") and p.endswith("transaction::manager::TxInfo") for p in rv[2][1:])):
+                    bad.append((f, ln))
+                if rv[0] == "agg" and rv[1] == "adt" and rv[2].endswith("transaction::manager::TxInfo"):
+                    n += 1
+            t = b["t"]
+            if t["k"] == "call" and any(isinstance(p, str) and p.startswith("f:start_epoch:") and p.endswith("transaction::manager::TxInfo") for p in t["dst"][1:]):
+                bad.append((f, t["line"]))
+    ctx.floor(rule, n, 1, "TxInfo literals (where start_epoch is set)")
+    from .facts import short_id
+    ctx.ob(rule, "TxInfo.start_epoch#immutable", not bad,
+           what="%s assigns TxInfo.start_epoch after the transaction has begun: the overlap tests of commit then compare against a snapshot "
+                "the transaction did not read from, and a commit it read around is no longer seen as concurrent"
+                % (short_id(bad[0][0].id) if bad else ""), where=(bad[0][0].loc(bad[0][1]) if bad else ""))
